@@ -55,6 +55,7 @@ type VC struct {
 	intMode    bool
 	rs         *runState
 	csHit      map[*CallSite]bool
+	indexTerms []string
 	obReturn   map[*Obligation]*ssa.Return
 	paramVals  []*Val
 	entryItems int
